@@ -53,6 +53,11 @@ def pristine(shape, bias_idx, seed):
         net = transformer.TransformerOCR(Front(s["dim"]), enc, num_classes=NCHARS + 2, dropout=0.0, nb_layers=s["layers"],
                                          dim_model=s["dim"], dim_ff=s["ff"], max_seq_len=16, nb_heads=s["heads"])
         with torch.no_grad():
+            # torch initialises the attention in-projection biases (and LayerNorm biases) to zero: a trained checkpoint does not
+            # have zero biases, and a mix-up between two biases is invisible while both are zero - randomise every bias
+            for name, prm in net.named_parameters():
+                if name.endswith("bias"):
+                    prm.add_(torch.empty_like(prm).uniform_(-0.4, 0.4))
             net.dec_out_proj.weight.mul_(3.0)
             net.dec_embeder.weight.mul_(1.5)
             b, g = BIASES[bias_idx]
